@@ -14,8 +14,11 @@ import (
 	"fmt"
 	"net/http"
 	"os"
+	"runtime"
 	"sort"
 	"strings"
+	"sync"
+	"sync/atomic"
 	"testing"
 	"time"
 
@@ -82,9 +85,9 @@ func tolCfg(f tolForm, custom bool) *hmacCfg {
 }
 
 // tolDSL writes the tolerance exactly in its written form (hmacCfg.dsl would print the Go rendering of the value).
-func tolDSL(c *hmacCfg, text string) string {
+func tolDSL(slot int, c *hmacCfg, text string) string {
 	var b strings.Builder
-	b.WriteString(dslHead(0))
+	b.WriteString(dslHead(slot))
 	fmt.Fprintf(&b, "%s {\n  queue { backend memory }\n  match { method %s }\n  auth hmac {\n    secret %q\n", c.Route, strings.Join(c.Methods, " "), "raw:"+c.Inline[0])
 	if c.SigH != "X-Signature" {
 		fmt.Fprintf(&b, "    signature_header %q\n    timestamp_header %q\n    nonce_header %q\n", c.SigH, c.TsH, c.NonceH)
@@ -96,70 +99,106 @@ func tolDSL(c *hmacCfg, text string) string {
 	return b.String()
 }
 
+type tolJob struct {
+	fi   int
+	f    tolForm
+	path string
+}
+
 func runTolerance(t *testing.T, r *runner.Run) {
 	offs := tolOffsets()
-	S := epoch.Add(2 * day).Unix()
 	r.Set("tolerance_forms", len(tolForms))
 	r.Set("tolerance_clock_offsets", len(offs))
+	var jobs []tolJob
 	for fi, f := range tolForms {
 		for _, path := range []string{"boot", "default>reload", "boot>reload-to-default"} {
-			custom := fi%2 == 1 // header-name configuration alternates over the alphabet
-			cfg := tolCfg(f, custom)
-			written := tolDSL(cfg, f.Text)
-			plain := tolDSL(cfg, "")
-			first, second := written, ""
-			eff := *cfg
-			switch path {
-			case "default>reload":
-				first, second = plain, written
-			case "boot>reload-to-default":
-				first, second = written, plain
-				eff.Tol = defaultTol
-			}
-			eff.Name += "/" + path
-			tl := newTally()
-			bubble(t, r, 0, first, cfg.Route, time.Time{}, func(s *session) {
-				dsl := first
-				if second != "" {
-					ok := true
-					// also after the re-boots that keep the listing small
-					s.onBoot = func(a *app.VerifApp) {
-						if err := os.WriteFile(a.ConfigPath, []byte(second), 0o644); err != nil {
-							r.Infra("tolerance %s: write config: %v", f.Text, err)
-							ok = false
-						} else if !a.Reload("verif") {
-							r.Infra("tolerance %s: reload (%s) refused", f.Text, path)
-							ok = false
-						}
-					}
-					if s.onBoot(s.a); !ok {
-						return
-					}
-					dsl = first + "\n# ---- then reloaded to ----\n" + second
-				}
-				e := &env{r: r, s: s, family: "hmac-tolerance", cfgName: eff.Name, dsl: dsl, route: cfg.Route, tl: tl, sample: fi == 4 && path == "boot"}
-				sg := signerT{Label: "inline", Key: []byte(cfg.Inline[0])}
-				for _, off := range offs {
-					at := time.Unix(S, 0).UTC().Add(off)
-					if d := at.Sub(time.Now()); d > 0 {
-						time.Sleep(d)
-					}
-					if !time.Now().Equal(at) {
-						r.Infra("virtual clock is %v, wanted %v", time.Now(), at)
-						return
-					}
-					g := &hmacGen{cfg: &eff, sg: sg, S: S, nonce: freshNonce, pairsPart: -1, body: baseBody}
-					c := g.base()
-					c.Class, c.Detail = "base", "clock-ts="+off.String()
-					c.Probe = off == 0
-					e.where = "clock=ts" + edgeLabel(off, eff.Tol)
-					ref := hmacAccepts(&eff, c, time.Now())
-					e.run(c, ref, []int{http.StatusUnauthorized}, true)
-				}
-			})
-			tl.flush(r)
+			jobs = append(jobs, tolJob{fi, f, path})
 		}
 	}
+	workers := runtime.NumCPU()
+	if workers > 12 {
+		workers = 12
+	}
+	if workers < 1 {
+		workers = 1
+	}
+	var next atomic.Int64
+	var wg sync.WaitGroup
+	for w := 0; w < workers; w++ {
+		wg.Add(1)
+		go func(slot int) {
+			defer wg.Done()
+			for {
+				i := int(next.Add(1)) - 1
+				if i >= len(jobs) {
+					return
+				}
+				tolBubble(t, r, slot, jobs[i], offs)
+			}
+		}(w + 1)
+	}
+	wg.Wait()
+}
+
+// tolBubble: one written tolerance brought into force one way; the clock sweeps forward over every offset.
+func tolBubble(t *testing.T, r *runner.Run, slot int, j tolJob, offs []time.Duration) {
+	f, fi, path := j.f, j.fi, j.path
+	S := epoch.Add(2 * day).Unix()
+	custom := fi%2 == 1 // header-name configuration alternates over the alphabet
+	cfg := tolCfg(f, custom)
+	written := tolDSL(slot, cfg, f.Text)
+	plain := tolDSL(slot, cfg, "")
+	first, second := written, ""
+	eff := *cfg
+	switch path {
+	case "default>reload":
+		first, second = plain, written
+	case "boot>reload-to-default":
+		first, second = written, plain
+		eff.Tol = defaultTol
+	}
+	eff.Name += "/" + path
+	tl := newTally()
+	bubble(t, r, slot, first, cfg.Route, time.Time{}, func(s *session) {
+		dsl := first
+		if second != "" {
+			ok := true
+			// also after the re-boots that keep the listing small
+			s.onBoot = func(a *app.VerifApp) {
+				if err := os.WriteFile(a.ConfigPath, []byte(second), 0o644); err != nil {
+					r.Infra("tolerance %s: write config: %v", f.Text, err)
+					ok = false
+				} else if !a.Reload("verif") {
+					r.Infra("tolerance %s: reload (%s) refused", f.Text, path)
+					ok = false
+				}
+			}
+			if s.onBoot(s.a); !ok {
+				return
+			}
+			dsl = first + "\n# ---- then reloaded to ----\n" + second
+		}
+		e := &env{r: r, s: s, family: "hmac-tolerance", cfgName: eff.Name, dsl: dsl, route: cfg.Route, tl: tl, sample: fi == 4 && path == "boot", maxRows: 24}
+		sg := signerT{Label: "inline", Key: []byte(cfg.Inline[0])}
+		for _, off := range offs {
+			at := time.Unix(S, 0).UTC().Add(off)
+			if d := at.Sub(time.Now()); d > 0 {
+				time.Sleep(d)
+			}
+			if !time.Now().Equal(at) {
+				r.Infra("virtual clock is %v, wanted %v", time.Now(), at)
+				return
+			}
+			g := &hmacGen{cfg: &eff, sg: sg, S: S, nonce: freshNonce, pairsPart: -1, body: baseBody}
+			c := g.base()
+			c.Class, c.Detail = "base", "clock-ts="+off.String()
+			c.Probe = off == 0
+			e.where = "clock=ts" + edgeLabel(off, eff.Tol)
+			ref := hmacAccepts(&eff, c, time.Now())
+			e.run(c, ref, []int{http.StatusUnauthorized}, true)
+		}
+	})
+	tl.flush(r)
 }
 
 // edgeLabel names an offset relative to the tolerance in force (stable violation keys: the failure class is
